@@ -77,11 +77,17 @@ def oracle_recording(strategy, scitype):
         if isinstance(f, Raised):
             return [unexpected(f, "make_reduction")]
         fh_fit = gen.build_fh(steps, case["fh_kind"])
+        if case.get("fh_abs"):
+            # the same steps given as absolute time points
+            from sktime.forecasting.base import ForecastingHorizon
+
+            fh_fit = ForecastingHorizon([int(y.index[-1]) + h for h in steps], is_relative=False)
+            ctx.label("absolute_horizon")
         if case.get("prefit"):
             # the forecaster object was fitted before, on a longer series with other values and
             # another index origin: what the regressors see afterwards is the LAST training data
             y0, X0 = build(dict(case, n=case["n"] + 4, vseed=case["vseed"] + 1, start=case["start"] + 3))
-            sut(f.fit, y0, X0, gen.build_fh(steps, case["fh_kind"]))
+            sut(f.fit, y0, X0, gen.build_fh(steps, "list"))
             doubles.LOG.clear()
             ctx.label("refitted")
         r = sut(f.fit, y, X, fh_fit)
@@ -151,7 +157,7 @@ def oracle_recording(strategy, scitype):
             Xf = pd.DataFrame(
                 {c: np.arange(hm, dtype=float) * 3.0 + 9000.0 * (j + 1) + 0.5 for j, c in enumerate(X.columns)},
                 index=gen.int_index(int(y.index[-1]) + 1, hm, case["index_kind"]))
-        pred_fh = None if case["fh_at_predict"] == "none" else gen.build_fh(steps, case["fh_kind"])
+        pred_fh = None if case["fh_at_predict"] == "none" else (fh_fit if case.get("fh_abs") else gen.build_fh(steps, case["fh_kind"]))
         if strategy == "recursive" and case["fh_at_predict"] == "subset":
             pass
         p = sut(f.predict, pred_fh, Xf)
@@ -229,7 +235,7 @@ def oracle_recording(strategy, scitype):
         if not arr_eq(p.to_numpy(), np.array(exp_pred)):
             discs.append(D("forecast_values_not_step_outputs", "%s: got %s expected %s" % (strategy, p.tolist(), exp_pred)))
         back = case.get("revision")
-        if back and X is None and not discs and n - back >= wl:
+        if back and X is None and not discs and n - back >= wl and not case.get("fh_abs"):
             # a batch of already known observations that ends before the end of the stored data
             # moves the cutoff back; the window fed at prediction time is the window_length
             # observations ending AT THE CUTOFF, not the tail of everything stored
@@ -357,7 +363,7 @@ def cases(draw, strategy=None, allow_exog=True, feasible_bias=9):
         "scitype_arg": draw(st.sampled_from(["infer", "explicit"])),
         "dtype": draw(st.sampled_from(["float64", "float64", "int64"])),
         "prefit": draw(st.integers(0, 4)) == 0,
-        "revision": draw(st.sampled_from([None, None, 1, 2, 3])),
+        "revision": draw(st.sampled_from([None, None, 1, 2, 3])), "fh_abs": draw(st.integers(0, 3)) == 0,
         "n_exog": 0,
     }
     c["n_exog"] = draw(st.integers(0, 3)) if allow_exog else 0
